@@ -107,3 +107,57 @@ def check(case):
 
 
 LANES = [Lane(k, (lambda kk: lambda tier: decomposed(kk, tier))(k), check, 3000, 30000, mod_candidates) for k in KINDS]
+
+
+# ---- constants handed over as Python numbers, integer samples beyond 2**53 ----------------------------------------
+
+def bigint_const_cases(tier):
+    from hypothesis import strategies as st
+    from ..common import bigint_cases
+
+    @st.composite
+    def mk(draw):
+        kind = draw(st.sampled_from(['dt_off', 'dt_on']))
+        c = draw(bigint_cases(past_only=(kind == 'dt_on')))
+        c['kind'] = kind
+        # how declare_const() receives the value: a Python int, a Python float or the text
+        c['const_as'] = draw(st.sampled_from(['int', 'int', 'float', 'text']))
+        return c
+    return mk()
+
+
+def check_bigint_const(case):
+    """Every literal of the formula is hoisted into a declared constant whose value is handed to declare_const() as a Python
+    int / float / text; the samples are Python integers of the order of 1.7e18. Modular == inlined, exactly."""
+    from ..modular import replace
+    from ..monitors import run_dt_off, run_dt_on
+    f = from_json(case['formula'])
+    vs = list(case['vars'])
+    kind = case['kind']
+    tr = {v: [int(x) for x in case['trace'][v]] for v in vs}
+    labels = ['kind:' + kind, 'integer-samples>2^53', 'constant-given-as:' + case['const_as']]
+    lits = sorted(set(s[1] for s in F.subterms(f) if s[0] == 'const'))
+    if not lits:
+        return DISCARD('no-literal', labels)
+    g = f
+    consts = []
+    for i, c in enumerate(lits):
+        g = replace(g, ('const', c), ('var', 'k%d' % i))
+        val = {'int': int(c), 'float': float(c), 'text': F.fmt_num(c)}[case['const_as']]
+        consts.append(('k%d' % i, 'int' if case['const_as'] == 'int' else 'float', val))
+    run = run_dt_off if kind == 'dt_off' else run_dt_on
+    inl = run('out = ' + F.show(f), vs, tr)
+    mod = run('out = ' + F.show(g), vs, tr, consts=consts)
+    desc = 'kind %s\nmodular: out = %s  with declare_const%r\ninlined: out = %s\ntrace (Python integers): %s' % (kind, F.show(g), consts, F.show(f), tr)
+    if inl[0] != 'ok':
+        return DISCARD('inlined-raises(C17):' + inl[1], labels)
+    if mod[0] != 'ok':
+        return FAIL('modular-raises:%s:%s' % (kind, mod[1]), desc + '\nmodular specification raised %s: %s at %s' % (mod[1], mod[3], mod[4]), labels)
+    a = [p[1] for p in mod[1]] if kind == 'dt_off' else mod[1]
+    b = [p[1] for p in inl[1]] if kind == 'dt_off' else inl[1]
+    if len(a) != len(b) or any(x != y for x, y in zip(a, b)):
+        return FAIL('modular-differs:bigint-const:' + kind, desc + '\nmodular: %r\ninlined: %r' % (a, b), labels)
+    return PASS(len(set(b)) > 1 or len(b) == 1, labels)
+
+
+LANES.append(Lane('bigint_const', bigint_const_cases, check_bigint_const, 600, 6000, None))
